@@ -223,3 +223,76 @@ Section Top.
     apply (find_exact_partial rs ic c fuel pf R Hnd Hs Hr HA H _ _ Hin).
   Qed.
 End Top.
+
+(* ================= the exactness theorem with purely syntactic side conditions ================= *)
+From SV Require Import PyEqEquiv.
+
+(* a leaf is an operator expression, or an implicit equality on a mapping-free value with normalised floats *)
+Definition PlainLeaf (key : str) (value : json) : Prop :=
+  contains_char dollar key = true \/ (flatv value = true /\ probe_normal value = true).
+
+Definition ValuesOk (c : corpus) : Prop := forall key v, In v (map snd (kvals c key)) -> okv v = true.
+
+(* well-formed data: lists hold no mappings, floats are normalised *)
+Fixpoint deep_ok (v : json) : bool :=
+  match v with
+  | JObj kvs => forallb (fun kv => deep_ok (snd kv)) kvs
+  | JArr l => forallb flatv l
+  | JFloat (m, e) => (0 <=? e)%Z || Z.odd m
+  | _ => true
+  end.
+
+Lemma deep_ok_lookup : forall nodes v x, deep_ok v = true -> lookup_path v nodes = Some x -> deep_ok x = true.
+Proof.
+  induction nodes as [|n nodes IH]; intros v x Hv H; simpl in H.
+  - inversion H; subst. exact Hv.
+  - destruct v; try discriminate. destruct (alookup n kvs) as [y|] eqn:E; [|discriminate].
+    apply (IH y x); auto. simpl in Hv. rewrite forallb_forall in Hv. apply (Hv (n, y)). apply alookup_In. exact E.
+Qed.
+
+Lemma deep_ok_okv : forall x, deep_ok x = true -> okv (as_key x) = true.
+Proof.
+  intros x H. destruct x as [| | |[m e]| |l|kvs]; try reflexivity.
+  - unfold okv. simpl in *. rewrite H. reflexivity.
+  - unfold okv. simpl in *. rewrite H. reflexivity.
+Qed.
+
+Lemma ValuesOk_deep : forall c, Forall (fun jd => deep_ok (snd jd) = true) c -> ValuesOk c.
+Proof.
+  intros c Hall key v Hv.
+  apply in_map_iff in Hv. destruct Hv as [[i k] [Hk Hin]]. simpl in Hk. subst k.
+  unfold kvals in Hin. apply in_flat_map in Hin. destruct Hin as [[i' d] [Hd Hx]]. simpl in Hx.
+  destruct (lookup_path d (split_on dot key)) as [x|] eqn:El; simpl in Hx; [|tauto].
+  destruct Hx as [Hx|[]]. inversion Hx; subst. apply deep_ok_okv.
+  rewrite Forall_forall in Hall. apply (deep_ok_lookup (split_on dot key) d x); auto. apply (Hall (i, d) Hd).
+Qed.
+
+Section Final2.
+  Variable regex_search : str -> str -> bool.
+  Variable isclose : (Z * Z) -> (Z * Z) -> (Z * Z) -> (Z * Z) -> bool.
+
+  Lemma ExprOK_PlainLeaf : forall c, NoDup (map fst c) -> NoSlotMerge c -> SlotRefl c -> ValuesOk c ->
+    ExprOK regex_search isclose PlainLeaf c.
+  Proof.
+    intros c Hnd Hs Hr Hok key value R HP H i d Hin.
+    destruct (contains_char dollar key) eqn:Ed.
+    - eapply find_expression_exact_ops; eauto.
+    - destruct HP as [HP|[Hf Hpn]]; [congruence|].
+      eapply find_expression_exact_eq_full; eauto.
+  Qed.
+
+  (* find_result = per-job evaluation whenever no two different values share an index slot;
+     the remaining hypotheses are well-formedness of data and filter *)
+  Theorem find_exact : forall c fuel expr R,
+    NoDup (map fst c) -> NoSlotMerge c ->
+    Forall (fun jd => wf (snd jd) = true) c -> Forall (fun jd => deep_ok (snd jd) = true) c ->
+    AllLeaves PlainLeaf fuel expr ->
+    find_result regex_search isclose fuel c expr = Ok R ->
+    forall i d, In (i, d) c -> matches regex_search isclose true fuel d expr = Ok (mem i R).
+  Proof.
+    intros c fuel expr R Hnd Hs Hwf Hdeep HA H i d Hin.
+    eapply find_result_exact; eauto. apply ExprOK_PlainLeaf; auto.
+    - apply SlotRefl_wf. exact Hwf.
+    - apply ValuesOk_deep. exact Hdeep.
+  Qed.
+End Final2.
